@@ -2219,6 +2219,14 @@ def dict_to_str(x):
     return str(x)
 
 
+def tok_color_dict_to_str(x):
+    """Converts a Token:str dictionary to a string. Tokens are written by
+    name (``Token.Keyword`` as ``'Token.Keyword'``): they have no literal
+    form, and ``to_tok_color_dict`` accepts the names as well.
+    """
+    return dict_to_str({str(k): v for k, v in x.items()} if x else x)
+
+
 # history validation
 
 _min_to_sec = lambda x: 60.0 * float(x)
